@@ -71,6 +71,9 @@ func readThreadList(dec *imapwire.Decoder) (*ThreadData, error) {
 	err := dec.ExpectList(func() error {
 		var num uint32
 		if len(data.SubThreads) == 0 && dec.Number(&num) {
+			if num == 0 {
+				return fmt.Errorf("imapclient: server returned message number 0 in THREAD response")
+			}
 			data.Chain = append(data.Chain, num)
 		} else {
 			sub, err := readThreadList(dec)
